@@ -83,7 +83,13 @@ class Scheduler:
         self.sems = [threading.Semaphore(0) for _ in range(self.n)]
         self.state = ["ready"] * self.n
         self.current = None
-        self.choices = list(choices)
+        # a schedule is sparse: ((point index, choice), ...) for the points where the choice is not 0; a plain sequence
+        # of choices (one per point) is accepted as well
+        choices = list(choices)
+        if choices and not isinstance(choices[0], (tuple, list)):
+            choices = [(i, c) for i, c in enumerate(choices) if c]
+        self.choices = {int(i): int(c) for i, c in choices}
+        self.last_choice = max(self.choices, default=-1)
         self.pos = 0
         self.trace = []      # (number of enabled threads, running thread still enabled, choice taken, kind)
         self.results = [None] * self.n
@@ -109,7 +115,7 @@ class Scheduler:
             return None
         if len(self.trace) >= self.horizon:
             raise HorizonExceeded()
-        c = self.choices[self.pos] if self.pos < len(self.choices) else 0
+        c = self.choices.get(self.pos, 0)
         if c >= len(en):
             raise ReplayDivergence(f"choice {c} at point {self.pos} but only {len(en)} enabled")
         self.pos += 1
@@ -186,6 +192,8 @@ class Scheduler:
         self.current = first
         self.sems[first].release()
         self.done.wait()
+        if self.error is None and self.pos <= self.last_choice:
+            self.error = f"ReplayDivergence: the schedule has a choice at point {self.last_choice}, the execution ended after {self.pos} points"
         return self.results, self.trace, self.error
 
 
@@ -356,11 +364,13 @@ def explore(setup, bound, check, nworkers=16, timeout=120.0, max_executions=None
                 stats["outcomes"][key] = stats["outcomes"].get(key, 0) + 1
                 if v is not None:
                     stats["violations"].append(v)
-                choices = [t[2] for t in trace]
-                for i in range(len(prefix), len(trace)):
+                # schedules are sparse ((point, choice) pairs, 0 elsewhere): the choices of this execution in front of
+                # point i are exactly those of its prefix
+                start = prefix[-1][0] + 1 if prefix else 0
+                for i in range(start, len(trace)):
                     n_en, running_enabled, _, _ = trace[i]
                     for alt in range(1, n_en):
-                        newp = tuple(choices[:i]) + (alt,)
+                        newp = tuple(prefix) + ((i, alt),)
                         if running_enabled:
                             next_level.append(newp)
                         else:
